@@ -331,6 +331,95 @@ pub fn run_c14(tier: &str, parity_odd: bool, rep: &mut Report) {
             }
         }
     }
+    // ---- long byte strings (size-dependent shortcuts: prefix-only hashing, windowed comparison ...)
+    let mut long_pairs = 0u64;
+    {
+        let lens: &[usize] = if tier == "thorough" { &[255, 256, 1024, 4096, 16384, 16385, 65536, 70001] } else { &[256, 4097, 16385, 70001] };
+        for &n in lens {
+            let x: Vec<u8> = (0..n).map(|i| (i * 31 + 7) as u8).collect();
+            // y differs from x only in its last byte / is a proper prefix / is equal
+            let mut y_last = x.clone();
+            *y_last.last_mut().unwrap() ^= 0x80;
+            let y_prefix = x[..n - 1].to_vec();
+            for y in [x.clone(), y_last, y_prefix] {
+                long_pairs += 1;
+                oracle::begin_execution(parity_odd);
+                cx.pair = format!("long strings: len(x)={} len(y)={} (y {} x)", n, y.len(), if y == x { "==" } else if y.len() < n { "proper prefix of" } else { "differs in the last byte from" });
+                let bx = bytes_reps(&x);
+                let by = bytes_reps(&y);
+                let mx = bytesmut_reps(&x);
+                let my = bytesmut_reps(&y);
+                for (i, (_n, b)) in bx.iter().enumerate() {
+                    let b: &Bytes = b;
+                    cx.rep.evaluations += 1;
+                    if oracle::subject(|| rec(b)) != rec(&x[..]) {
+                        cx.fail("Hash for Bytes", "hash", "different write sequence".into(), "that of [u8]".into());
+                    }
+                    both_orders!(cx, "Bytes", b, &x, "[u8]", &y[..], &y);
+                    both_orders!(cx, "Bytes", b, &x, "Vec<u8>", &y, &y);
+                    let b2 = &by[(i + 1) % by.len()].1;
+                    cx.ord("Bytes vs Bytes", b, b2, &x, &y);
+                    cx.eq_only("Bytes vs BytesMut (eq)", b, &my[i % my.len()].1, &x, &y);
+                }
+                for (i, (_n, m)) in mx.iter().enumerate() {
+                    let m: &BytesMut = m;
+                    cx.rep.evaluations += 1;
+                    if oracle::subject(|| rec(m)) != rec(&x[..]) {
+                        cx.fail("Hash for BytesMut", "hash", "different write sequence".into(), "that of [u8]".into());
+                    }
+                    both_orders!(cx, "BytesMut", m, &x, "[u8]", &y[..], &y);
+                    cx.ord("BytesMut vs BytesMut", m, &my[(i + 1) % my.len()].1, &x, &y);
+                }
+                let mut hs: std::collections::HashSet<Bytes> = std::collections::HashSet::new();
+                hs.insert(bx[1].1.clone());
+                cx.rep.evaluations += 1;
+                if !hs.contains(&x[..]) {
+                    cx.fail("HashSet<Bytes>::contains(&[u8])", "lookup", "false".into(), "true".into());
+                }
+                oracle::subject(|| {
+                    drop(hs);
+                    drop(bx);
+                    drop(by);
+                    drop(mx);
+                    drop(my);
+                });
+                let _ = oracle::end_execution();
+                let _ = oracle::take_violation();
+            }
+        }
+    }
+    // ---- BytesMut handles carved from one allocation: an empty handle at the start / end of a non-empty one
+    for x in uni.iter().filter(|x| !x.is_empty()) {
+        oracle::begin_execution(parity_odd);
+        cx.pair = format!("x={:02x?} vs empty handles carved from the same buffer", x);
+        let (e_front, full, e_back, head, rest) = oracle::subject(|| {
+            let mut m = BytesMut::from(&x[..]);
+            let e_front = m.split_to(0);
+            let e_back = m.split_off(x.len());
+            let mut m2 = BytesMut::with_capacity(x.len() + 2);
+            let head = m2.split();
+            m2.extend_from_slice(x);
+            (e_front, m, e_back, head, m2)
+        });
+        for (e, f) in [(&e_front, &full), (&e_back, &full), (&head, &rest)] {
+            cx.ord("BytesMut vs BytesMut (empty sibling in the same allocation)", e, f, &[], x);
+            cx.ord("BytesMut vs BytesMut (empty sibling in the same allocation)", f, e, x, &[]);
+            cx.rep.evaluations += 1;
+            if oracle::subject(|| e.cmp(f)) != (&[][..]).cmp(&x[..]) {
+                cx.fail("Ord for BytesMut (empty sibling)", "cmp", "wrong".into(), "Less".into());
+            }
+        }
+        oracle::subject(|| {
+            drop(e_front);
+            drop(full);
+            drop(e_back);
+            drop(head);
+            drop(rest);
+        });
+        let _ = oracle::end_execution();
+        let _ = oracle::take_violation();
+    }
+    cx.rep.extra_num("long_string_pairs", long_pairs);
     let rows = cx.rows.len() as u64;
     let outcomes = cx.outcomes.len() as u64;
     let row_list: Vec<String> = cx.rows.iter().cloned().collect();
@@ -468,10 +557,10 @@ fn c15_universe(tier: &str) -> Vec<Vec<u8>> {
     // longer strings: every length up to 80 and a spread beyond (formatters that work in
     // blocks), with a position-coded pattern and with an all-escapes pattern
     let mut lens: Vec<usize> = (5..=80).collect();
-    lens.extend([96usize, 100, 127, 128, 129, 200, 255, 256, 257, 300, 1000]);
+    lens.extend([96usize, 100, 127, 128, 129, 200, 255, 256, 257, 300, 1000, 4095, 4096, 4097, 16383, 16384, 16385, 20000, 65536, 70001]);
     for &n in &lens {
         v.push((0..n).map(|i| (i * 37 + 11) as u8).collect());
-        if n <= 80 || tier == "thorough" {
+        if n <= 80 || n == 16385 || tier == "thorough" {
             v.push((0..n).map(|i| [0u8, b'"', b'\\', b'\n', 0x7f, 0xff, b'9', b'a'][i % 8]).collect());
         }
     }
@@ -568,6 +657,9 @@ fn serde_part(uni: &[Vec<u8>], tier: &str, rep: &mut Report) {
     let mut fails: Vec<String> = vec![];
     for (i, x) in uni.iter().enumerate() {
         if tier != "thorough" && x.len() == 2 && i % 5 != 0 {
+            continue;
+        }
+        if x.len() > 6000 && tier != "thorough" && x.len() != 16385 {
             continue;
         }
         let st: &'static [u8] = Box::leak(x.clone().into_boxed_slice());
